@@ -20,7 +20,7 @@ def build_spec():
     return spec
 
 
-MODULES = ["c_auxiliary", "c_assumed", "c_node", "c_exit_arrival", "c_simulation", "c_dists", "c_trackers", "c_routing", "c_preempt", "c_schedules"]
+MODULES = ["c_auxiliary", "c_assumed", "c_node", "c_exit_arrival", "c_simulation", "c_dists", "c_trackers", "c_routing", "c_preempt", "c_schedules", "c_init"]
 
 
 def add(spec, target, **kw):
